@@ -755,7 +755,7 @@ func TestVerifC19Block(t *testing.T) {
 	}
 	// every random history owns a fixed block of ids: 1 domain case + up to b19Wild wild cases
 	const b19Wild = 3
-	n := vg.Scale(170, 6000)
+	n := vg.Scale(170, 3000)
 	for k := 0; k < n; k++ {
 		ids := make([]int, 1+b19Wild)
 		want := false
